@@ -56,6 +56,8 @@ def variants(name, f):
         small = {p: 2 + ranked.index(d) for p, d in wins}
         v['small'] = small
         v['other'] = {p: d + 3 + i for i, (p, d) in enumerate(wins)}
+        # long windows: the influence of candles before the 240-candle warm-up window is still visible in recursive kernels
+        v['large'] = {p: 40 + 5 * ranked.index(d) for p, d in wins}
     return v
 
 
@@ -125,6 +127,20 @@ def stems(n=300, base=100.0):
     out['flat'] = build([base + (0.2 if i % 2 else -0.2) for i in range(n)], wick=0.1)
     out['spike'] = build([base + (25.0 if i in (70, 71, 180) else 0) + 0.1 * (i % 5) for i in range(n)])
     out['saw'] = build([base + (i % 13) * 0.8 - (i % 5) * 0.5 for i in range(n)])
+    # minutes without trades: stretches of candles with open == high == low == close inside a moving market
+    cl = []
+    c = base
+    for i in range(n):
+        stretch = (40 <= i % 100 < 52) or (70 <= i % 100 < 76)
+        if not stretch:
+            c = c + (1.1 if (i * 7) % 5 < 3 else -1.3)
+        cl.append(c)
+    nt = build(cl, wick=0.4)
+    for i in range(n):
+        if (40 <= i % 100 < 52) or (70 <= i % 100 < 76):
+            nt[i, 1] = nt[i, 2] = nt[i, 3] = nt[i, 4] = cl[i]
+            nt[i, 5] = 0.0
+    out['notrade'] = nt
     # two deterministic "real looking" walks (linear congruential steps, no RNG)
     for name, seed in (('walk1', 12345), ('walk2', 777)):
         x = seed
